@@ -32,7 +32,7 @@ REQUIRED_MONITORS = ["equals_base_at_translated", "Fq_equals_base_at_translated"
 REQUIRED_BUCKETS = {"quick": ["tpl:boundary", "tpl:affine", "tpl:power", "tpl:pair", "tpl:ternary", "tpl:chain3", "place:default",
                               "place:start", "place:after-untouched", "place:after-angle", "dim:1d", "dim:2d",
                               "pd:feeds-intermediate", "validity-boundary-crossed", "lane:asan", "new-parameters:untyped",
-                              "new-parameters:untyped-and-no-volume-parameter-left"]}
+                              "new-parameters:untyped-and-no-volume-parameter-left", "same-name-second-definition"]}
 REQUIRED_BUCKETS["thorough"] = REQUIRED_BUCKETS["quick"]
 
 BASES = ["sphere", "cylinder", "ellipsoid", "core_shell_sphere", "hollow_cylinder", "barbell", "capped_cylinder",
@@ -299,6 +299,38 @@ def run_case(case, rec):
             okF = okF and core.close(Fr[0], Fb[0], 1e-10, 1e-10*math.sqrt(float(np.max(np.abs(Fb[1])))))
         rec.check("Fq_equals_base_at_translated", okF, None if okF else dict(ctx, mode=mode, observed=[x for x in Fr[1:]],
                                                                               base=[x for x in Fb[1:]]))
+    # ---- a second definition under the same model name and the same new-parameter names, differing only in the
+    # constants of its translation, built against the same library cache: it must be its own model, not the first
+    if tpl in ("affine", "pair", "power") and case.get("lane", "plain") == "plain":
+        rng2 = core.rng_for(case["seed"], PROP, k, "second")
+        tpl2, new2, st2, repl2, feeds2 = build_translation(bi, tpl, rng2, pars0)
+        if tpl2 == tpl and [n[0] for n in new2] == [n[0] for n in new] and repl2 == repl:
+            new2 = [n2[:4] + [n1[4]] + n2[5:] for n1, n2 in zip(new, new2)]
+            text2 = "\n".join("        %s = %s" % (lhs, C(ast)) for lhs, ast in st2)
+            if text2 != text:
+                info2 = sascore.reparameterize(bi, new2, text2, insert_after=ia, name="rtm_rep_%04d" % k)
+                model2 = sascore.build_model(info2, platform="dll")
+                newvals2 = {n[0]: float(n[2]) for n in new2}
+                tr2, _ = translate(st2, newvals2, {kk: vv for kk, vv in basevals.items() if kk not in repl})
+                rp2 = {kk: vv for kk, vv in basevals.items() if kk not in repl}
+                rp2.update(newvals2)
+                rp2.update(scale=pars0["scale"], background=pars0["background"])
+                bp2 = dict(tr2, scale=pars0["scale"], background=pars0["background"])
+                for a in angles:
+                    rp2[a] = bp2[a] = rp.get(a, pars0.get(a, 0.0))
+                I2 = np.asarray(direct_model.call_kernel(model2.make_kernel(q), dict(rp2)), float)
+                Ib2 = np.asarray(direct_model.call_kernel(kb, dict(bp2)), float)
+                sc2 = float(np.max(np.abs(Ib2 - bp2["background"])))
+                ok2 = core.close(I2, Ib2, 1e-10, 1e-12*sc2)
+                rec.check("equals_base_at_translated", ok2,
+                          None if ok2 else dict(ctx, note="second definition under the same name and parameter names",
+                                                second_translation=text2, observed=I2, base=Ib2,
+                                                max_rel_err=core.maxrel(I2, Ib2, 1e-12*sc2)))
+                # and the first definition is still itself
+                I1 = np.asarray(direct_model.call_kernel(sascore.build_model(info, platform="dll").make_kernel(q), dict(rp)), float)
+                rec.check("equals_base_at_translated", core.close(I1, Ib, 1e-10, 1e-12*sc),
+                          dict(ctx, note="first definition rebuilt after the second", observed=I1, base=Ib))
+                rec.bucket("same-name-second-definition")
     # ---- dispersity on new parameters: weighted mean over the mesh in the new parameters
     newpars = [p for p in info.parameters.call_parameters if p.name in newvals and p.polydisperse]
     if newpars:
